@@ -260,8 +260,10 @@ PROGRAM_SCENARIOS = {'add': 'add', 'add_flat': 'add', 'add_dup': 'add', 'add_big
                      'pack': 'pack', 'pack_clean': 'pack', 'pack_small': 'pack', 'pack_auto': 'pack', 'pack_nofsync': 'pack',
                      'pack_nofsync_clean': 'pack', 'pack_novalidate': 'pack', 'pack_then_clean': 'pack', 'clean': 'clean', 'delete': 'delete',
                      'repack': 'repack', 'repack_keep': 'repack',
-                     'topack': 'addpack', 'topack_multi': 'addpack', 'topack_nofsync': 'addpack', 'topack_nh': 'addpack', 'topack_nh_rt0': 'addpack'}
-ADDPACK_FLAGS = {'topack': (0, 0), 'topack_multi': (0, 0), 'topack_nofsync': (0, 0), 'topack_nh': (1, 1), 'topack_nh_rt0': (1, 0)}
+                     'topack': 'addpack', 'topack_multi': 'addpack', 'topack_nofsync': 'addpack', 'topack_nh': 'addpack', 'topack_nh_rt0': 'addpack',
+                     'import_same': 'import', 'import_diff': 'import', 'import_same_stream': 'import', 'import_diff_stream': 'import'}
+ADDPACK_FLAGS = {'topack': (0, 0), 'topack_multi': (0, 0), 'topack_nofsync': (0, 0), 'topack_nh': (1, 1), 'topack_nh_rt0': (1, 0),
+                 'import_same': (0, 0), 'import_diff': (1, 1), 'import_same_stream': (0, 0), 'import_diff_stream': (1, 1)}
 
 
 def program_lines(name, ev, run, keys):
@@ -285,7 +287,7 @@ def program_lines(name, ev, run, keys):
         vac = 1 if ev[:2] == ['commit', 'commit'] else 0
         lines.append((f'X clean {vac} ' + ','.join(ks)).rstrip())
         return lines
-    if kind == 'addpack':
+    if kind in ('addpack', 'import'):
         nh, twice = ADDPACK_FLAGS[name]
         pre_packs = {k: bytes.fromhex(v) for k, v in run['pre']['packs'].items()}
         cur = {}
@@ -331,7 +333,15 @@ def program_lines(name, ev, run, keys):
                 k = keys.id(store.H(HT, content))
                 items.append((pos, 0, f'{k},{hx(tail)},{comp},{len(content)}'))   # a duplicate written at pos precedes the new object that ends up there
             items.sort(key=lambda x: (x[0], x[1]))
-            lines.append(f"X addpack {sg['id']} {nh} {twice} {1 if sg['fsync'] else 0} {';'.join(x[2] for x in items)}")
+            sg['items'] = items
+            if kind == 'addpack':
+                lines.append(f"X addpack {sg['id']} {nh} {twice} {1 if sg['fsync'] else 0} {';'.join(x[2] for x in items)}")
+        if kind == 'import' and segs:
+            # Programs.p_import: all do_commit=False batches, then the one COMMIT
+            fs = 1 if all(sg['fsync'] for sg in segs) else 0
+            lines.append(f"X import {nh} {twice} {fs} " + '|'.join(f"{sg['id']}=" + ';'.join(x[2] for x in sg['items']) for sg in segs))
+        elif kind == 'import':
+            lines.append('X import %d %d 1 ' % (nh, twice))
         return lines
     if kind == 'repack':
         # one program per pack in the order the implementation visited them (listdir order = oracle), then the final VACUUM
@@ -487,7 +497,7 @@ def check_traces(ck, pid, baselines=None, names=None):
     ck.obligation('correspondence: Store.apply_ev over the intercepted trace of each scenario ends in exactly the folder read raw (event semantics vs OS/SQLite), no unknown event',
                   not bad_sem, '; '.join(bad_sem)[:1200], kind='correspondence')
     if nprog:
-        ck.obligation(f'correspondence: the Gallina programs (Programs.p_add_loose / p_pack_one / p_clean / p_delete), run on the inputs recovered from '
+        ck.obligation(f'correspondence: the Gallina programs (Programs.p_add_loose / p_pack_one / p_clean / p_delete / p_repack_one / p_vacuum / p_add_to_pack / p_import), run on the inputs recovered from '
                       f'the implementation run, generate exactly the implementation\'s event trace ({nprog} scenarios)', not bad_prog, '; '.join(bad_prog)[:1200], kind='correspondence')
         for r in results:
             if r.get('prog_diff'):
